@@ -43,6 +43,7 @@ def main():
     queries, meta = mod.build(a.tier)
     if a.only:
         queries = [q for q in queries if a.only in q.name]
+        core.EVIDENCE = os.path.join(core.VERIF, "evidence", ".partial")   # never overwrite the registered evidence
     return core.run_check(a.prop, a.tier, queries, meta)
 
 
